@@ -25,6 +25,13 @@ pub(crate) trait ToFileTime {
 
 impl ToFileTime for Timestamp {
     fn to_file_time(&self) -> FileTime {
-        FileTime::from_unix_time(self.as_second(), self.subsec_nanosecond().cast_unsigned())
+        // FileTime wants floor seconds and a non-negative fraction; jiff gives a
+        // non-positive subsecond for instants before the epoch.
+        let (secs, nanos) = if self.subsec_nanosecond() < 0 {
+            (self.as_second() - 1, self.subsec_nanosecond() + 1_000_000_000)
+        } else {
+            (self.as_second(), self.subsec_nanosecond())
+        };
+        FileTime::from_unix_time(secs, nanos.cast_unsigned())
     }
 }
